@@ -19,6 +19,8 @@ type Ctx struct {
 	Res     *Result
 
 	cur     *Case
+	lite    [3]string // kind, key, value of a lightweight case (materialised on demand)
+	hasLite bool
 	journal *os.File
 	perSig  map[string]int
 	// OnPanic lets a monitor translate library-specific panic values (step budget).
@@ -50,10 +52,15 @@ func (x *Ctx) Count(k string)           { x.Res.Counts[k]++ }
 func (x *Ctx) CountN(k string, n int64) { x.Res.Counts[k] += n }
 func (x *Ctx) Nontrivial()              { x.Res.Nontrivial++ }
 func (x *Ctx) Inconclusive(why string)  { x.Res.Inconclusive++; x.Res.Counts["inconclusive:"+why]++ }
-func (x *Ctx) Current() *Case           { return x.cur }
-func (x *Ctx) SetCurrent(c *Case)       { x.cur = c }
+func (x *Ctx) Current() *Case {
+	if x.cur == nil && x.hasLite {
+		x.cur = NewCase(x.lite[0], x.lite[1], x.lite[2])
+	}
+	return x.cur
+}
+func (x *Ctx) SetCurrent(c *Case) { x.cur = c }
 func (x *Ctx) HarnessBug(msg string) {
-	if len(x.Res.HarnessBugs) < 20 {
+	if len(x.Res.HarnessBugs) < 2 {
 		x.Res.HarnessBugs = append(x.Res.HarnessBugs, msg)
 	}
 	x.Res.Counts["harness_bug"]++
@@ -110,6 +117,7 @@ func (x *Ctx) ViolateDetail(sig, observed, expected, detail string) {
 		return
 	}
 	var cc *Case
+	x.Current()
 	if x.cur != nil {
 		cp := *x.cur
 		cp.In = map[string]Str{}
@@ -127,6 +135,7 @@ func (x *Ctx) ViolateDetail(sig, observed, expected, detail string) {
 // Do runs one case under the crash monitor: journal first, then f under recover.
 func (x *Ctx) Do(c *Case, f func()) {
 	x.cur = c
+	x.hasLite = false
 	x.Res.Evaluations++
 	if x.journal != nil {
 		b, _ := json.Marshal(c)
@@ -134,6 +143,22 @@ func (x *Ctx) Do(c *Case, f func()) {
 		x.journal.Write(b) //nolint
 	}
 	x.Guard(f)
+}
+
+// DoLite is Do for single-input cases in hot enumeration loops: the Case object is only
+// built when something is reported (or when journaling).
+func (x *Ctx) DoLite(kind, key, val string, f func()) {
+	x.cur = nil
+	x.lite = [3]string{kind, key, val}
+	x.hasLite = true
+	x.Res.Evaluations++
+	if x.journal != nil {
+		b, _ := json.Marshal(x.Current())
+		b = append(b, '\n')
+		x.journal.Write(b) //nolint
+	}
+	x.Guard(f)
+	x.hasLite = false
 }
 
 // Guard runs f and converts a panic into a violation (library frame on top) or a
